@@ -13,7 +13,7 @@
 use rio_xml::RdfXmlFormatter;
 use sophia_api::serializer::{Stringifier, TripleSerializer};
 use sophia_api::source::{SinkError, StreamResult, TripleSource};
-use sophia_rio::serializer::rio_format_triples;
+use sophia_rio::serializer::{RdfXmlGuard, rio_format_triples};
 use std::io;
 
 /// RDF/XML serializer configuration.
@@ -90,9 +90,9 @@ where
         } else {
             RdfXmlFormatter::new(&mut self.write)
         };
-        let mut tf = res.map_err(SinkError)?;
+        let mut tf = RdfXmlGuard(res.map_err(SinkError)?);
         rio_format_triples(&mut tf, source)?;
-        tf.finish().map_err(SinkError)?;
+        tf.0.finish().map_err(SinkError)?;
         Ok(self)
     }
 }
